@@ -1124,6 +1124,7 @@ func main() {
 	latticePhase(r)
 	historiesPhase(r)
 	terminationPhase()
+	linkStage()
 	if n := dirtyHigh.Load(); n > 0 {
 		rep.Note("observed %d i32/f32 results whose uint64 slot had non-zero upper 32 bits (canonicalised; subject of C08, not C12)", n)
 	}
